@@ -94,3 +94,10 @@ package taskfile
 //@   modifies heap
 //@   blocks
 //@   ensures !held(r.promptMutex)                                                                              [C16,C20]
+
+// ---- C10: the include statements of a Taskfile are resolved with the Taskfile's variables laid OVER the
+// environment (a global var of the file beats an environment variable of the same name)
+//@ ghost var inclEnv *ast.Vars scratch
+//@ func (*Reader).include$1
+//@   site env.GetEnviron#1 ghost inclEnv := result
+//@   site (*Vars).Merge#1 requires arg0 == inclEnv && arg1 == vertex.Taskfile.Vars                              [C10]
